@@ -4,4 +4,10 @@ var props = []propCfg{
 	{ID: "C16", Harness: "c16", Quick: tierCfg{Shards: 8, Deadline: 240}, Thorough: tierCfg{Shards: 16, Deadline: 1200},
 		Rule: "all 741 (p,s) pairs x boundary unscaled integers {0,+-1,10^k,10^k+-1,ramps, all <=3-digit ints} x ~18 spellings each, plus the constructor grid -2..41 squared; every case runs NewDecimal/String/SetString of the real asetypes.Decimal and is compared with math/big; cases are distinct by construction; non-trivial = value != 0 (fmt/parse) or invalid pair (ctor)",
 		Assume: []string{"math/big is correct", "values beyond the boundary grid are not enumerated (declared grid)"}},
+	{ID: "C19", Harness: "c19", Quick: tierCfg{Shards: 16, Deadline: 240}, Thorough: tierCfg{Shards: 16, Deadline: 1500},
+		Rule: "all lists of 0..2 ranges over 14 bounds (12 semantic versions incl. pre-release/build, empty, unparsable) x 15 versions x all permutations; all multisets of 3 ranges (thorough: 4) over a 5(4)-bound sub-grid x 8 versions x all permutations; 81 ordered pairs of capabilities; an integer comparer as custom comparer; each case builds a real capability.Target and calls Version/Has; oracle = interval membership on an independently parsed semver; non-trivial = at least one range",
+		Assume: []string{"the reference semver parser implements semver.org precedence", "both-bounds-empty ranges are UNSPECIFIED (statement is contradictory there)", "an ill-formed range next to a containing range may or may not be evaluated"}},
+	{ID: "C17", Harness: "c17", Quick: tierCfg{Shards: 16, Deadline: 300}, Thorough: tierCfg{Shards: 16, Deadline: 2400},
+		Rule: "totality: every string of length <=6 (thorough <=7) over the 13 symbols a = space ' \" \\ : / ? & % @ # through Parse, ParseURI and ParseSimple into a tds.Info-like struct (and <=5/6 into dsn.Info); round trip: every field of dsn.Info, tds.Info and a local struct (embedded + nested struct, aliases, int, bool) set to every value of a 33-string (URI: 45) boundary set, all single and pairwise deviations, FormatURI->ParseURI and FormatSimple->ParseSimple; every ordered pair of names of one field (override); unknown keys; non-trivial = input contains a quote or '=' (totality) / at least one deviating field",
+		Assume: []string{"URI form: host and port restricted to plain values (statement quantifies over user, password, database and additional properties)", "URI form: winner between different aliases of one field is UNSPECIFIED", "simple form values exclude quotes, backslashes and control characters as in the statement"}},
 }
